@@ -120,6 +120,16 @@ def o4_structures(tier):
                             continue
                         sts.append({"terms": [pool[i] for i in combo], "identity": ident, "control": ctrl, "order": order, "time": tmode,
                                     "n": 5 if ctrl and len(ctrl) > 1 else 4})
+    # order 2 on operators whose words have DIFFERENT weights and overlap on one qubit with different letters (anticommuting pairs such as X0X1 / Z0, the transverse-field
+    # Ising pattern Z0 + X0X1 + Z1, a weight-3 word against weight-1 words), next to genuinely commuting mixed-weight sets: the second-order sequence must be generated
+    # whenever the words do not all commute
+    mixed = [[[[0, "X"], [1, "X"]], [[0, "Z"]]], [[[0, "Z"]], [[0, "X"], [1, "X"]], [[1, "Z"]]], [[[0, "X"], [1, "Y"], [2, "Z"]], [[1, "Z"]], [[2, "X"]]],
+             [[[0, "Z"], [1, "Z"]], [[0, "Z"]], [[1, "Z"]]], [[[0, "Y"], [2, "Y"]], [[2, "Z"]]], [[[1, "X"]], [[0, "Z"], [1, "Z"], [2, "Z"]]]]
+    for terms in mixed:
+        for ident in (False, True):
+            for ctrl in (None, [3]):
+                for tmode in ("1", "dict"):
+                    sts.append({"terms": terms, "identity": ident, "control": ctrl, "order": 2, "time": tmode, "n": 4})
     # control lists that contain qubit 0 (words shifted to qubits 1..3)
     for combo in ([0], [1, 2], [3, 4]):
         for ident in (False, True):
